@@ -149,6 +149,13 @@ V("C07", "filter-passes-corners", SAMP, "        corner_lonlats = np.asarray(til
 V("C07", "prune-on-level", TOAST, "    if n > 1 and not filter(tile):\n        return", "    if n > 1 and (not filter(tile) or n > 6):\n        return", "C07.R2")
 V("C07", "P-np-array", SAMP, "        corner_lonlats = np.asarray(tile.corners)\n", "        corner_lonlats = np.array(tile.corners)\n", "HOLDS")
 V("C07", "P-max-2", SAMP, "            n1 = int(np.ceil(coarse_idx1[hi1] - coarse_idx1[lo1])) + 1", "            n1 = max(int(np.ceil(coarse_idx1[hi1] - coarse_idx1[lo1])), 2)", "HOLDS")
+V("C07", "bottom-window-off-by-one", SAMP, "                rel = 3 * nm - e\n", "                rel = 3 * nm - (1 + e)\n", "C07.R9", note="the repaired F11")
+V("C07", "left-window-off-by-one", SAMP, "                rel = 4 * nm - e\n", "                rel = 4 * nm - e - 1\n", "C07.R9")
+V("C07", "right-edge-refined-on-left", SAMP, "                refined_idx1 = np.zeros(n) + coarse_idx1[nm]\n", "                refined_idx1 = np.zeros(n) + coarse_idx1[0]\n", "C07.R9")
+V("C07", "walk-bottom-forwards", SAMP, "        coarse_edge_lons[2 * nm : 3 * nm] = coarse_lon[-1:0:-1, nm]", "        coarse_edge_lons[2 * nm : 3 * nm] = coarse_lon[1:, nm]", "C07.R9", note="walk direction no longer matches the refinement")
+V("C07", "top-window-one-sided", SAMP, "            if e < nm:\n                # \"top\" edge (thinking of array as [lon, lat] ~ [x, y])\n                lo = max(e - 1, 0)", "            if e < nm:\n                # \"top\" edge (thinking of array as [lon, lat] ~ [x, y])\n                lo = max(e, 0)", "C07.R9")
+V("C07", "P-bottom-rel-respelled", SAMP, "                rel = 3 * nm - e\n", "                rel = -(e - 3 * nm)\n", "HOLDS")
+V("C07", "P-wider-window", SAMP, "                rel = 4 * nm - e\n                lo = max(rel - 1, 0)\n                hi = min(rel + 1, nm)", "                rel = 4 * nm - e\n                lo = max(rel - 2, 0)\n                hi = min(rel + 2, nm)", "HOLDS")
 
 # ---------------------------------------------------------------- C08
 V("C08", "gx1-no-minus-one", STUDY, "        img_gx1 = (\n            self._img_gx0 + self._width - 1\n        )  # inclusive", "        img_gx1 = (\n            self._img_gx0 + self._width\n        )  # inclusive", "C08.R2")
